@@ -405,11 +405,14 @@ func (b *assignmentBuilder) isExternalPkg(pkg *types.Package) bool {
 func (b *assignmentBuilder) resolveExpr(matcher *option.IdentMatcher, root bmodel.Node) (node bmodel.Node, ok bool) {
 	node = root
 	typ := root.ExprType()
+	// A variable is addressable and so are its fields; the result of a method call is not,
+	// so a pointer-receiver method cannot be called on it.
+	addressable := true
 	for i := 0; i < matcher.PathLen(); i++ {
 		isLast := matcher.PathLen() == i+1
 		pkg := util.PkgOf(typ)
 
-		obj, _, _ := types.LookupFieldOrMethod(typ, true, pkg, matcher.NameAt(i))
+		obj, _, _ := types.LookupFieldOrMethod(typ, addressable, pkg, matcher.NameAt(i))
 		if obj == nil {
 			return
 		}
@@ -440,6 +443,7 @@ func (b *assignmentBuilder) resolveExpr(matcher *option.IdentMatcher, root bmode
 				return
 			}
 			typ = ret
+			addressable = util.IsPtr(ret)
 		} else {
 			field, valid := obj.(*types.Var)
 			if !valid {
@@ -455,6 +459,9 @@ func (b *assignmentBuilder) resolveExpr(matcher *option.IdentMatcher, root bmode
 			}
 
 			typ = field.Type()
+			if util.IsPtr(typ) {
+				addressable = true
+			}
 		}
 	}
 	return
@@ -486,11 +493,12 @@ func (b *assignmentBuilder) resolveTemplatedExpr(
 		return node, true
 	}
 
+	addressable := true
 	for i := 1; i < matcher.PathLen(); i++ {
 		isLast := matcher.PathLen() == i+1
 
 		pkg := util.PkgOf(typ)
-		obj, _, _ := types.LookupFieldOrMethod(typ, true, pkg, matcher.NameAt(i))
+		obj, _, _ := types.LookupFieldOrMethod(typ, addressable, pkg, matcher.NameAt(i))
 		if obj == nil {
 			return
 		}
@@ -520,6 +528,7 @@ func (b *assignmentBuilder) resolveTemplatedExpr(
 				return
 			}
 			typ = ret
+			addressable = util.IsPtr(ret)
 		} else {
 			field, valid := obj.(*types.Var)
 			if !valid {
@@ -535,6 +544,9 @@ func (b *assignmentBuilder) resolveTemplatedExpr(
 			}
 
 			typ = field.Type()
+			if util.IsPtr(typ) {
+				addressable = true
+			}
 		}
 	}
 	return
